@@ -37,6 +37,27 @@ pub enum OccAction {
     IntoMut,
 }
 
+/// `Option<f64>` in replay files: JSON has no infinities, they are written as strings.
+mod opt_float {
+    use serde::{Deserialize, Deserializer, Serialize, Serializer};
+    #[derive(Serialize, Deserialize)]
+    #[serde(untagged)]
+    enum F {
+        N(f64),
+        S(String),
+    }
+    pub fn serialize<S: Serializer>(v: &Option<f64>, s: S) -> Result<S::Ok, S::Error> {
+        v.map(|x| if x.is_finite() { F::N(x) } else { F::S(format!("{x}")) }).serialize(s)
+    }
+    pub fn deserialize<'de, D: Deserializer<'de>>(d: D) -> Result<Option<f64>, D::Error> {
+        match Option::<F>::deserialize(d)? {
+            None => Ok(None),
+            Some(F::N(x)) => Ok(Some(x)),
+            Some(F::S(t)) => t.parse::<f64>().map(Some).map_err(serde::de::Error::custom),
+        }
+    }
+}
+
 #[derive(Clone, Debug, PartialEq, Serialize, Deserialize)]
 pub enum Op {
     Insert(u8, u32),
@@ -85,10 +106,10 @@ pub enum Op {
     /// `requirements().require::<_, T>()`
     Require(u8),
     /// set (or create in the top scope) the best-individual memory
-    SetBest(Option<f64>),
+    SetBest(#[serde(with = "opt_float")] Option<f64>),
     /// a fresh best-individual memory in the *current* scope (what a nested heuristic's
     /// initialisation does), holding nothing or the given value
-    SetBestHere(Option<f64>),
+    SetBestHere(#[serde(with = "opt_float")] Option<f64>),
     /// `configure_log(|_| if fail { Err } else { Ok })`: creates a default `LogConfig` in the
     /// current scope only if none is visible; a failing closure changes nothing else
     ConfigureLog { fail: bool },
@@ -106,7 +127,7 @@ pub enum Op {
     SetFloat(u64),
     /// the caller's population stack holds one population with one evaluated individual of this
     /// value (or is empty): conditions about the *recorded* best do not look at it
-    SetPopulation(Option<f64>),
+    SetPopulation(#[serde(with = "opt_float")] Option<f64>),
     /// `best_objective_value()` / `best_individual()` while a shared guard on the best-individual
     /// memory is alive: readers next to readers are never refused
     BestWhileShared,
